@@ -88,7 +88,82 @@ Headings == <<"fastest", "slowest", "median", "mean", "samples", "iters">>
 (***************************************************************************)
 LeafOfPath(P, dp) == {leaf \in Leaves(P) : DispPath(P, leaf) = dp}
 
-Check(r) ==
+(***************************************************************************)
+(* Back-end M (generated crates using the real attribute macros): records  *)
+(* carry backend = "M"; records of back-end R have no such field.  A body  *)
+(* generated for M cannot know an instance number: it logs what it         *)
+(* RECEIVED - the function it belongs to (`fn`: index of the benchmark, or *)
+(* of the generic function's group), std::any::type_name of its type       *)
+(* parameter, the value of its const parameter, its argument.  Which       *)
+(* instance that is, is resolved here.                                     *)
+(***************************************************************************)
+IsM(r) == "backend" \in DOMAIN r /\ r.backend = "M"
+
+InstOf(P, inv) ==
+  IF inv.what = "b" THEN inv.fn
+  ELSE LET S == {j \in 1..Len(P.ginst) :
+                   /\ P.ginst[j].group = inv.fn
+                   /\ P.ginst[j].has_type = (inv.type_raw_cp # <<>>)
+                   /\ (P.ginst[j].has_type => P.ginst[j].type_raw_cp = inv.type_raw_cp)
+                   /\ P.ginst[j].has_const = inv.has_const
+                   /\ (inv.has_const => P.ginst[j].const = inv.const)}
+       IN IF S = {} THEN -1 ELSE (CHOOSE j \in S : TRUE) - 1
+InvId(r, inv) == IF IsM(r) THEN InstOf(r.program, inv) ELSE inv.id
+
+\* the function whose argument list an args_eval event belongs to
+EvalKey(r, a) ==
+  IF IsM(r) THEN <<a.what, a.fn>>
+  ELSE IF a.what = "g" THEN <<"g", r.program.ginst[a.id + 1].group>> ELSE <<"b", a.id>>
+
+\* M: every benchmarked call of a row received what the row's function received
+SameReceived(inv, c) ==
+  /\ c.what = inv.what /\ c.fn = inv.fn /\ c.type_raw_cp = inv.type_raw_cp
+  /\ c.has_const = inv.has_const /\ c.const = inv.const
+  /\ c.has_arg = inv.has_arg /\ c.arg_cp = inv.arg_cp
+
+(***************************************************************************)
+(* C12 on the registry dump of a compiled program (back-end M).            *)
+(***************************************************************************)
+RegistryRules(P, reg) ==
+  LET db == [k \in 1..Len(reg.benches) |-> DumpedBench(reg.benches[k])]
+      wb == [i \in 1..Len(P.benches) |-> WrittenBench(P.benches[i])]
+      dg == [k \in 1..Len(reg.groups) |-> DumpedGroup(reg.groups[k])]
+      wg == [g \in 1..Len(P.groups) |-> WrittenGroup(P, g)]
+      Count(q, v) == Cardinality({k \in DOMAIN q : q[k] = v})
+      SameItem(a, b) == a.meta.mp = b.meta.mp /\ a.meta.raw = b.meta.raw
+      \* what differs, for the report (only items that are not registered as written)
+      Diag(w, d) ==
+        Flag(d.meta.disp # w.meta.disp, "C12:display_name_differs_from_what_was_written")
+        \cup Flag(d.meta.file # w.meta.file \/ d.meta.line # w.meta.line \/ d.meta.col # w.meta.col,
+                  "C12:source_location_differs_from_the_attribute_position")
+        \cup Flag(d.meta.opts # w.meta.opts, "C12:option_values_differ_from_what_was_written")
+  IN
+  \* RegistryEqualsCases: benchmarks
+  Flag(\E i \in DOMAIN wb : Count(db, wb[i]) = 0, "C12:written_benchmark_not_registered_as_written")
+  \cup Flag(\E i \in DOMAIN wb : Count(db, wb[i]) > 1, "C12:benchmark_registered_more_than_once")
+  \cup Flag(\E k \in DOMAIN db : \A i \in DOMAIN wb : db[k] # wb[i], "C12:registered_benchmark_that_was_not_written")
+  \cup UNION {UNION {Diag(wb[i], db[k])
+                     \cup Flag(db[k].kind # wb[i].kind \/ db[k].cases # wb[i].cases,
+                               "C12:argument_cases_differ_from_the_args_list")
+                     : k \in {k \in DOMAIN db : SameItem(wb[i], db[k])}}
+              : i \in {i \in DOMAIN wb : Count(db, wb[i]) = 0}}
+  \* RegistryEqualsCases: groups and generic instances (types x consts)
+  \cup Flag(\E g \in DOMAIN wg : MustBeRegistered(P, g) /\ Count(dg, wg[g]) = 0,
+            "C12:written_group_or_generic_function_not_registered_as_written")
+  \cup Flag(\E g \in DOMAIN wg : Count(dg, wg[g]) > 1, "C12:group_registered_more_than_once")
+  \cup Flag(\E k \in DOMAIN dg : \A g \in DOMAIN wg : dg[k] # wg[g], "C12:registered_group_that_was_not_written")
+  \cup Flag(\E k \in DOMAIN dg : Cardinality(dg[k].instances) # Len(reg.groups[k].instances),
+            "C12:generic_instance_registered_more_than_once")
+  \cup UNION {UNION {Diag(wg[g], dg[k])
+                     \cup Flag(dg[k].instances # wg[g].instances,
+                               "C12:generic_instances_differ_from_types_x_consts")
+                     \* EmptyListsRegisterNothing
+                     \cup Flag(wg[g].instances = {} /\ dg[k].instances # {},
+                               "C12:empty_types_or_consts_list_registered_an_instance")
+                     : k \in {k \in DOMAIN dg : SameItem(wg[g], dg[k])}}
+              : g \in {g \in DOMAIN wg : Count(dg, wg[g]) = 0}}
+
+CheckRun(r) ==
   LET P == r.program
       C == r.config
       par == r.parallelism
@@ -188,7 +263,9 @@ Check(r) ==
                  kindKey(q) == CASE q = 1 -> "bytes" [] q = 2 -> "chars" [] q = 3 -> "cycles" [] OTHER -> "items"
              IN
              \* C17: the row is measured with the argument / const / type it names
-             Flag(inv.what # leaf.what \/ inv.id # leaf.id, "C17:row_ran_another_benchmark_instance")
+             Flag(inv.what # leaf.what \/ InvId(r, inv) # leaf.id, "C17:row_ran_another_benchmark_instance")
+             \cup Flag(IsM(r) /\ \E q \in 1..Len(inv.recv) : ~SameReceived(inv, inv.recv[q]),
+                       "C17:call_received_another_value_than_its_row")
              \cup Flag(inv.has_arg # cs.hasArg \/ (cs.hasArg /\ inv.arg_cp # cs.arg), "C17:row_ran_with_another_argument")
              \* C15: effective options as seen by the loop
              \cup (IF ~inv.has_loop THEN Flag(~zero, "C15:benchmark_loop_did_not_run")
@@ -227,11 +304,12 @@ Check(r) ==
              : k \in 1..(IF Len(r.invokes) < Len(runRows) THEN Len(r.invokes) ELSE Len(runRows))})
     \* C17: the argument list is evaluated once per process and shared
     \cup Flag(\E i, j \in 1..Len(r.args_evals) : i # j /\
-                 LET a == r.args_evals[i] b == r.args_evals[j]
-                     ga == IF a.what = "g" THEN P.ginst[a.id + 1].group ELSE -1
-                     gb == IF b.what = "g" THEN P.ginst[b.id + 1].group ELSE -1
-                 IN (a.what = "b" /\ b.what = "b" /\ a.id = b.id) \/ (a.what = "g" /\ b.what = "g" /\ ga = gb),
+                 EvalKey(r, r.args_evals[i]) = EvalKey(r, r.args_evals[j]),
               "C17:argument_list_evaluated_more_than_once")
+
+\* a run of back-end M that carries the registry dump of its program is also judged on it
+Check(r) ==
+  CheckRun(r) \cup (IF "registry" \in DOMAIN r THEN RegistryRules(r.program, r.registry) ELSE {})
 
 Init == l = 1 /\ bad = {} /\ rid = "none"
 TrRun ==
